@@ -320,7 +320,7 @@ func TestConcChild(t *testing.T) {
 		select {
 		case r := <-done:
 			fmt.Println("CHILD-RESULT ok late-poll=" + r)
-		case <-time.After(5 * time.Second):
+		case <-time.After(20 * time.Second): // (generous: the machine may be busy; a healthy API answers in microseconds)
 			fmt.Println("CHILD-RESULT deadlock the late poll of an idle filter (and the requests after it) never returned")
 		}
 	case mode == "api":
